@@ -782,3 +782,74 @@ def det_resolver(repo, tier="quick"):
     if len(reach) < 15:
         raise AnalysisError("determinism scan reached only %d functions from the resolver entry points (floor 15)" % len(reach))
     return obs
+
+
+def tt_relative_dispatch(repo, tier="quick"):
+    """C15: the remapping of a node-referencing attribute in sort_nodes_by_attr, executed abstractly for the value shapes that
+    occur (tuple / list of node keys, a single integer key, a single string key): sequences are translated element by
+    element, scalars as a whole, whatever the declared depth flag says."""
+    from ..absint import Evaluator, Unsupported, Raised
+    fi = repo.function("graph_utils:sort_nodes_by_attr")
+    fl, cfg = fi.flow, fi.cfg
+    oid = "TT.relative-dispatch"
+    rel = fl.calls_to("networkx.relabel_nodes")
+    need(rel, "anchor vanished: sort_nodes_by_attr does not call relabel_nodes", fi)
+    call = rel[0][0]
+    from .common import call_arg
+    marg = call_arg(call, 1, "mapping")
+    need(isinstance(marg, ast.Name), "anchor vanished: the relabelling map is not a local name", fi)
+    mapname = marg.id
+    R = fl.canon(call, rel[0][1])
+    # the loop over the entries of the attribute on the relabelled graph
+    loop = None
+    for n in cfg.nodes:
+        if n.kind == "for":
+            it = strip_wrappers(fl.canon(n.ast.iter, n.id))
+            m = method_call(it, "items")
+            c = is_call(m[0], "networkx.get_node_attributes") if m else None
+            if c and c[0] and c[0][0] == R:
+                loop = n
+    need(loop is not None, "anchor vanished: no loop over the entries of a relative attribute", fi)
+    tgt = loop.ast.target
+    need(isinstance(tgt, ast.Tuple) and len(tgt.elts) == 2 and all(isinstance(x, ast.Name) for x in tgt.elts),
+         "the entry loop does not unpack (key, values)", fi)
+    kname, vname = tgt.elts[0].id, tgt.elts[1].id
+    store = None
+    for sub in ast.walk(loop.ast):
+        if isinstance(sub, ast.Assign) and isinstance(sub.targets[0], ast.Subscript) and isinstance(sub.targets[0].value, ast.Name) \
+                and isinstance(sub.targets[0].slice, ast.Name) and sub.targets[0].slice.id == kname:
+            store = sub.targets[0].value.id
+    need(store is not None, "the entry loop does not store the translated value under the entry's key", fi)
+    # free local names of the loop body that are bound outside it (the declared depth flag): both truth values
+    bound_outside = set()
+    for sub in ast.walk(loop.ast):
+        if isinstance(sub, ast.Name) and isinstance(sub.ctx, ast.Load) and sub.id in fl.locals and sub.id not in (mapname, store, kname, vname):
+            bound_outside.add(sub.id)
+    assigned_inside = {t.id for sub in ast.walk(loop.ast) for t in ast.walk(sub) if isinstance(t, ast.Name) and isinstance(t.ctx, ast.Store)}
+    flags = sorted(bound_outside)
+    mapping = {10: 0, 11: 1, 12: 2, "a": 3}
+    scenarios = [("tuple of node keys", (10, 11), [0, 1]), ("list of node keys", [11, 10], [1, 0]),
+                 ("single integer key", 11, 1), ("single string key", "a", 3)]
+    bad = []
+    n = 0
+    import itertools
+    for (label, value, want), combo in itertools.product(scenarios, itertools.product((True, False), repeat=len(flags))):
+        env = {mapname: dict(mapping), store: {}, kname: 12, vname: value}
+        env.update(dict(zip(flags, combo)))
+        ev = Evaluator()
+        n += 1
+        try:
+            ev.block(loop.ast.body, env)
+            got = env[store].get(12, "<nothing stored>")
+        except Raised as r:
+            got = "raises " + r.exc_name
+        except Unsupported as err:
+            raise AnalysisError("relative attribute remapping outside the evaluator's language: %s" % err, fi.where(loop.ast))
+        g = list(got) if isinstance(got, (list, tuple)) else got
+        if g != want:
+            bad.append((label, dict(zip(flags, combo)), want, got))
+    if bad:
+        return [ob_fail(oid, fi, loop.ast, construct="%s, declared %s" % (b[0], b[1]), instance="dispatch",
+                        reason="translated to %r, the node references require %r" % (b[3], b[2])) for b in bad[:4]]
+    return [ob_ok(oid, fi, loop.ast, construct="remap of (tuple | list | int | str) values through the relabelling map", instance="dispatch",
+                  reason="%d abstract executions of the entry loop body: sequences element-wise, scalars as a whole" % n)]
